@@ -51,7 +51,7 @@ class HarnessError(Exception):
 
 
 # --------------------------------------------------------------------------------------------
-# Last-resort hang guard (wall clock). It never decides an outcome of a correct run: it only turns
+# Last-resort hang guard (CPU time of the process; wall clock x10 as backstop). It never decides an outcome of a correct run: it only turns
 # a run that would spin forever without reaching any seam into a SimWatchdog in the spinning thread.
 # --------------------------------------------------------------------------------------------
 
@@ -61,6 +61,7 @@ class WallGuard:
     def __init__(self):
         self.lock = threading.Lock()
         self.deadline = None
+        self.wall_deadline = None
         self.ident = None
         self.thread = None
         self.fired = 0
@@ -71,10 +72,14 @@ class WallGuard:
         while True:
             time.sleep(0.5)
             with self.lock:
-                if self.deadline is not None and time.monotonic() > self.deadline and self.ident is not None:
+                # the limit is counted in CPU time of this process (a spinning run burns it; a machine that is merely
+                # overloaded does not), with ten times the limit in wall time as the backstop for a run that blocks
+                if self.deadline is not None and self.ident is not None and \
+                        (time.process_time() > self.deadline or time.monotonic() > self.wall_deadline):
                     self.fired += 1
                     ctypes.pythonapi.PyThreadState_SetAsyncExc(ctypes.c_ulong(self.ident), ctypes.py_object(SimWatchdog))
-                    self.deadline = time.monotonic() + 5.0   # keep firing until the run unwinds
+                    self.deadline = time.process_time() + 5.0   # keep firing until the run unwinds
+                    self.wall_deadline = time.monotonic() + 5.0
 
     def arm(self, seconds=None):
         import time
@@ -82,7 +87,8 @@ class WallGuard:
             self.thread = threading.Thread(target=self._loop, daemon=True)
             self.thread.start()
         with self.lock:
-            self.deadline = time.monotonic() + (seconds or self.LIMIT_S)
+            self.deadline = time.process_time() + (seconds or self.LIMIT_S)
+            self.wall_deadline = time.monotonic() + 10 * (seconds or self.LIMIT_S)
             self.ident = threading.get_ident()
 
     def running_in(self, ident):
